@@ -25,7 +25,11 @@ Sids == DOMAIN socks
 Fld(r, f, d) == IF f \in DOMAIN r THEN r[f] ELSE d
 
 \* ----------------------------------------------------------------- C09: the target of a packet
+\* a subnet the interface owns is kept in addrs as <<nic, "net:" + textual prefix>> (byte-aligned IPv4 subnets: "10.1." = 10.1/16)
+IsNet(a) == Len(a) > 4 /\ SubSeq(a, 1, 4) = "net:"
+InNet(dst, a) == LET pre == SubSeq(a, 5, Len(a)) IN Len(dst) >= Len(pre) /\ SubSeq(dst, 1, Len(pre)) = pre
 Accepts(nic, dst) == <<nic, dst>> \in addrs \/ nic \in promisc
+                     \/ \E a \in addrs : a[1] = nic /\ IsNet(a[2]) /\ InNet(dst, a[2])
 Cands(typ, v, dport) == {s \in Sids : socks[s].typ = typ /\ socks[s].st \in Live /\ socks[s].lport = dport /\ v \in socks[s].nets}
 Target(typ, nic, v, src, sport, dst, dport) ==
   IF ~Accepts(nic, dst) THEN NoSock
@@ -171,11 +175,14 @@ Close == /\ IsEvent("op") /\ Ev.op = "close" /\ expect = NoExp
          /\ q' = [q EXCEPT ![Ev.s] = <<>>]
          /\ UNCHANGED <<addrs, promisc, pemit, expect>>
 
-AddrOps == /\ IsEvent("op") /\ Ev.op \in {"addaddr", "rmaddr", "promisc"} /\ expect = NoExp
+AddrOps == /\ IsEvent("op") /\ Ev.op \in {"addaddr", "rmaddr", "promisc", "addsubnet", "rmsubnet"} /\ expect = NoExp
            /\ IF Ev.op = "promisc" THEN promisc' = (IF Ev.on THEN promisc \cup {Ev.nic} ELSE promisc \ {Ev.nic}) /\ UNCHANGED addrs
               ELSE /\ UNCHANGED promisc
                    /\ addrs' = IF Ev.err # "" THEN addrs
-                               ELSE IF Ev.op = "addaddr" THEN addrs \cup {<<Ev.nic, Ev.addr>>} ELSE addrs \ {<<Ev.nic, Ev.addr>>}
+                               ELSE IF Ev.op = "addaddr" THEN addrs \cup {<<Ev.nic, Ev.addr>>}
+                               ELSE IF Ev.op = "rmaddr" THEN addrs \ {<<Ev.nic, Ev.addr>>}
+                               ELSE IF Ev.op = "addsubnet" THEN addrs \cup {<<Ev.nic, Ev.key>>}
+                               ELSE addrs \ {<<Ev.nic, Ev.key>>}
            /\ UNCHANGED <<socks, q, pemit, expect>>
 
 \* ----------------------------------------------------------------- TCP segments and resets (C09 "TCP answers with a reset", C03 NoSocket)
